@@ -812,11 +812,83 @@ class Builder:
             r = self._null_test(e, frame)
             if r is not None:
                 return r
+        if isinstance(e, ast.Name) and self.thread_returns:
+            d = self._bool_def(e, frame)
+            if d is not None:
+                # `flag = <pure test>` ... `if flag:` branches on the test
+                # itself (its operands are unchanged in between): what the
+                # flag stands for is visible on the edges
+                return self._cond(d, frame)
         self._expr(e, frame)
         if not self.dangling:
             return [], []
         n = self._emit('test', e, frame)
         return [(n, 'T')], [(n, 'F')]
+
+    def _bool_def(self, e: ast.Name, frame):
+        """the expression a local flag stands for: the flag is assigned
+        once, from a side-effect-free test over names (is / == / in /
+        isinstance / not / and / or), and none of those names is assigned
+        between that assignment and this use"""
+        from .model import walk_own
+        fn = frame.ctx.func
+        if e.id in fn.params:
+            return None
+        memo = self.__dict__.setdefault('_bool_defs', {})
+        key = (id(fn.node), e.id)
+        if key not in memo:
+            memo[key] = None
+            stores = [x for x in walk_own(fn.node)
+                      if isinstance(x, ast.Name) and x.id == e.id and
+                      isinstance(x.ctx, (ast.Store, ast.Del))]
+            defs = [a for a in walk_own(fn.node)
+                    if isinstance(a, ast.Assign) and len(a.targets) == 1 and
+                    isinstance(a.targets[0], ast.Name) and
+                    a.targets[0].id == e.id]
+            if len(stores) == 1 and len(defs) == 1:
+                v = defs[0].value
+
+                def pure(x):
+                    if isinstance(x, (ast.Name, ast.Constant)):
+                        return True
+                    if isinstance(x, ast.UnaryOp) and \
+                            isinstance(x.op, ast.Not):
+                        return pure(x.operand)
+                    if isinstance(x, ast.BoolOp):
+                        return all(pure(y) for y in x.values)
+                    if isinstance(x, ast.Compare) and len(x.ops) == 1:
+                        return pure(x.left) and pure(x.comparators[0])
+                    if isinstance(x, ast.Call) and \
+                            isinstance(x.func, ast.Name) and \
+                            x.func.id == 'isinstance' and \
+                            len(x.args) == 2 and \
+                            isinstance(x.args[0], ast.Name):
+                        return True
+                    return False
+                testlike = isinstance(v, (ast.BoolOp, ast.Compare)) or (
+                    isinstance(v, ast.UnaryOp) and
+                    isinstance(v.op, ast.Not)) or (
+                    isinstance(v, ast.Call) and
+                    isinstance(v.func, ast.Name) and
+                    v.func.id == 'isinstance')
+                if testlike and pure(v):
+                    ops = {x.id for x in ast.walk(v)
+                           if isinstance(x, ast.Name) and
+                           isinstance(x.ctx, ast.Load)} - {'isinstance'}
+                    line = defs[0].lineno
+                    ok = True
+                    for o in ops:
+                        for st in walk_own(fn.node):
+                            if isinstance(st, ast.Name) and st.id == o and \
+                                    isinstance(st.ctx, (ast.Store, ast.Del)) \
+                                    and st.lineno >= line:
+                                ok = False
+                    if ok:
+                        memo[key] = (v, line)
+        got = memo[key]
+        if got is None or e.lineno <= got[1]:
+            return None
+        return got[0]
 
     @staticmethod
     def _provably_object(v) -> bool:
